@@ -45,9 +45,12 @@ def demo(tree, demo_path):
     return r.returncode, (r.stdout + r.stderr)[-600:]
 
 
+ROUND = {"suffix": "", "tag": ""}
+
+
 def verify(pid, m):
     wt = f"/tmp/wt/{pid}"
-    src = f"/tmp/wt/{pid}-out/{m}"
+    src = f"/tmp/wt/{pid}-out{ROUND['suffix']}/{m}"
     sh(f"git -C {wt} checkout -q -- . && git -C {wt} clean -fdq")
     # patches were made against an earlier HEAD of /repo only if the worktree lags; keep the worktree at /repo's HEAD
     head = sh("git -C /repo rev-parse HEAD").stdout.strip()
@@ -68,8 +71,8 @@ def verify(pid, m):
 
 
 def keep(pid, m, info):
-    src = f"/tmp/wt/{pid}-out/{m}"
-    dst = os.path.join(VERIF, "seeded", f"{pid}-{m}")
+    src = f"/tmp/wt/{pid}-out{ROUND['suffix']}/{m}"
+    dst = os.path.join(VERIF, "seeded", f"{pid}-{ROUND['tag']}{m}")
     os.makedirs(dst, exist_ok=True)
     for f in ("patch.diff", "demo.py"):
         shutil.copy(os.path.join(src, f), os.path.join(dst, f))
@@ -119,6 +122,9 @@ def run(name, props=None, tier="quick", scale=None):
 
 def main():
     a = sys.argv[1:]
+    if "--round" in a:
+        r = a[a.index("--round") + 1]
+        ROUND["suffix"], ROUND["tag"] = r, f"r{r}"
     if a[0] == "verify":
         ok, info = verify(a[1], a[2])
         if ok and "--keep" in a:
